@@ -2,7 +2,7 @@
    and unmixed.  Theorems only. *)
 From Coq Require Import ZArith List Bool.
 Import ListNotations.
-From KD Require Import C04.Model C04.Spec C04.Lists C04.Arith C04.Sides C04.Proofs C04.Corollaries C04.Batches C04.Bounds C04.Loader C04.Passes C04.Example.
+From KD Require Import C04.Model C04.Spec C04.Lists C04.Arith C04.Sides C04.Proofs C04.Corollaries C04.Batches C04.Bounds C04.Loader C04.Passes C04.Order C04.Example.
 Open Scope Z_scope.
 
 (* the model IS the spec; in the spec every update is followed by
@@ -117,6 +117,16 @@ Theorem c05_loader_delivers : forall c mi, WF c mi -> idx_ok c mi ->
     loader_batches c (fst (batches (render tr))) = Some (map (expected c) tagged).
 Proof. exact loader_delivers. Qed.
 Print Assumptions c05_loader_delivers.
+
+(* config objects are shared between InterleavedSamplers (a training sampler,
+   then an eval-only one with another main batch size): the constructor takes
+   the configs as given and writes nothing back - a config without a batch size
+   of its own is batched by the batch size of the sampler that iterates it *)
+Theorem c05_configs_unchanged : forall a c e u s, ctor a = Ok c e u s ->
+  sides c = a_sides a /\ forall ci sc p off, side_pass c ci off sc p
+    = side_pass_aux ci (or_default (sbs sc) (lB c)) (slen sc) off 0 (sidx sc p).
+Proof. exact ctor_configs_unchanged. Qed.
+Print Assumptions c05_configs_unchanged.
 
 Example c05_premises_satisfiable :
   WF ex_cfg ex_iter /\ wf_side ex_side /\ nth_error (sides ex_cfg) 1 = Some ex_side /\ 0 <= 3 < dslen ex_side
